@@ -503,31 +503,141 @@ def dae_build_pattern(pid):
 
 
 def j_islands(pid):
-    """System.j_islands (in-place mode): for islanded buses the angle and voltage diagonals of gy are set to diag_eps and their
-    cross terms to zero; nothing happens without islanded buses."""
+    """System.j_islands (in-place mode): afterwards, for every islanded bus k, gy[a_k, a_k] = gy[v_k, v_k] = diag_eps and
+    gy[a_k, v_k] = gy[v_k, a_k] = 0; without islanded buses gy is untouched.  gy is modelled as a function (row, col) -> value;
+    ipset(val, rows, cols) sets entry (rows[j], cols[j]) to val for every j."""
+    GY0 = z3.Function('gy_before', I, I, R)
+    NI = fresh('n_islanded', I)
+
+    def cur(st):
+        return st.ghost['gy']
+
     def ipset(ex, st, args, kw, node):
         base, val, rows, cols = args
         gy = st.load('self.dae.gy')
-        nm = {st.load('self.Bus.islanded_a').loc: 'a', st.load('self.Bus.islanded_v').loc: 'v'}
         ok = isinstance(base, Opaque) and base.term.eq(gy.term) and isinstance(rows, Ref) and isinstance(cols, Ref)
-        r, c_ = nm.get(rows.loc), nm.get(cols.loc)
-        eps = to_z3(st.load('self.config.diag_eps'))
-        good = z3.And(z3.BoolVal(bool(ok and r and c_)), to_z3(as_real(val).val) == (eps if r == c_ else 0))
-        ex.oblige(st, 'pre@call:gy.ipset(eps-on-diagonal|0-on-cross-terms)', good, {})
-        st.ghost['set'] = st.ghost['set'] + [(r, c_)]
+        ex.oblige(st, 'pre@call:ipset-on-dae.gy-with-index-arrays', z3.BoolVal(bool(ok)), {})
+        if not ok:
+            return None
+        r, c_ = st.content(rows), st.content(cols)
+        ex.oblige(st, 'pre@call:ipset:rows-and-cols-have-equal-length', r.n == c_.n, {})
+        x = as_real(val).val
+        old = cur(st)
+        j = fresh('j', I)
+        st.ghost['gy'] = lambda i, k, old=old, r=r, c_=c_, x=x, j=j: z3.If(
+            z3.Exists([j], z3.And(j >= 0, j < r.n, z3.ToInt(r.vals[j]) == i, z3.ToInt(c_.vals[j]) == k)), x, old(i, k))
+        st.ghost['nset'] = st.ghost['nset'] + 1
         return None
 
     def post(old, new, res):
-        done = sorted(new.st.ghost['set'])
-        none = to_z3(old.get('self.Bus.n_islanded_buses')) == 0
-        return z3.If(none, z3.BoolVal(done == []), z3.BoolVal(done == [('a', 'a'), ('a', 'v'), ('v', 'a'), ('v', 'v')]))
+        a, v = old.arr('self.Bus.islanded_a'), old.arr('self.Bus.islanded_v')
+        eps = old.z('self.config.diag_eps')
+        gy = cur(new.st)
+        k, i, j = fresh('k', I), fresh('i', I), fresh('j', I)
+        ak, vk = z3.ToInt(a.vals[k]), z3.ToInt(v.vals[k])
+        patched = z3.ForAll([k], z3.Implies(z3.And(k >= 0, k < NI), z3.And(gy(ak, ak) == eps, gy(vk, vk) == eps, gy(ak, vk) == 0,
+                                                                           gy(vk, ak) == 0)))
+        untouched = z3.BoolVal(new.st.ghost['nset'] == 0)
+        return z3.If(old.z('self.Bus.n_islanded_buses') == 0, untouched, patched)
+
+    def pre(v):
+        a, vv = v.arr('self.Bus.islanded_a'), v.arr('self.Bus.islanded_v')
+        p, q = fresh('p', I), fresh('q', I)
+        return z3.And(a.n == NI, vv.n == NI, NI >= 0, v.z('self.Bus.n_islanded_buses') == NI,
+                      # the angle and voltage addresses of buses are pairwise distinct (C10)
+                      z3.ForAll([p, q], z3.Implies(z3.And(p >= 0, p < NI, q >= 0, q < NI), z3.And(
+                          a.vals[p] != vv.vals[q], z3.Implies(p != q, z3.And(a.vals[p] != a.vals[q], vv.vals[p] != vv.vals[q]))))))
     c = Contract(FS, 'System.j_islands', pid=pid, params={'self': TObj()},
                  schema={'self.Bus.n_islanded_buses': TInt(), 'self.Bus.islanded_a': TArr(kind='int'), 'self.Bus.islanded_v': TArr(kind='int'),
                          'self.config.ipadd': TConst(True), 'self.config.diag_eps': TReal(), 'self.dae.gy': TOpaque('SparseMatrix')},
-                 ghost_init={'set': []}, calls={'<value>.ipset': ipset},
-                 ensures=[('diag=eps,cross=0-for-islanded-buses;no-op-otherwise', post)], modifies=[])
+                 requires=[('islanded-address-lists-paired-and-distinct', pre)],
+                 ghost_init={'gy': lambda v: (lambda i, k: GY0(i, k)), 'nset': 0}, calls={'<value>.ipset': ipset},
+                 ensures=[('diag=eps,cross=0-for-every-islanded-bus;untouched-otherwise', post)], modifies=[])
     c.merge = False
     return c
+
+
+def replay_j_islands(obligation, model, meta):
+    """native run of the real System.j_islands on a stub system with a dense gy pattern and 0..3 islanded buses"""
+    from types import SimpleNamespace
+    import numpy as np
+    from kvxopt import spmatrix
+    from andes.system import System
+    eps = 1e-6
+    for nisl in (0, 1, 2, 3):
+        nb = 4
+        m = 2 * nb + 1
+        ii, jj = np.meshgrid(np.arange(m), np.arange(m), indexing='ij')
+        vals = (1.0 + ii.ravel() * 0.1 + jj.ravel() * 0.01).tolist()
+        gy = spmatrix(vals, ii.ravel().tolist(), jj.ravel().tolist(), (m, m), 'd')
+        before = np.array([[gy[int(i), int(j)] for j in range(m)] for i in range(m)])
+        buses = list(range(nisl))
+        a = np.array(buses, dtype=int)
+        v = np.array([nb + b for b in buses], dtype=int)
+        stub = SimpleNamespace(Bus=SimpleNamespace(n_islanded_buses=nisl, islanded_a=a, islanded_v=v),
+                               config=SimpleNamespace(ipadd=1, diag_eps=eps), dae=SimpleNamespace(gy=gy))
+        System.j_islands(stub)
+        after = np.array([[stub.dae.gy[int(i), int(j)] for j in range(m)] for i in range(m)])
+        bad = None
+        if nisl == 0 and not np.array_equal(before, after):
+            bad = 'gy changed without islanded buses'
+        for k in range(nisl):
+            want = {(a[k], a[k]): eps, (v[k], v[k]): eps, (a[k], v[k]): 0.0, (v[k], a[k]): 0.0}
+            for (i, j), w in want.items():
+                if after[i, j] != w:
+                    bad = 'gy[%d,%d] = %r, expected %r' % (i, j, after[i, j], w)
+        if bad:
+            return {'confirmed': True, 'inputs': {'islanded_a': a.tolist(), 'islanded_v': v.tolist(), 'diag_eps': eps, 'gy': 'dense %dx%d' % (m, m)},
+                    'observed': bad, 'native_cmd': 'System.j_islands(stub) with a dense kvxopt gy'}
+    return {'confirmed': False, 'tried': 4}
+
+
+def replay_system_j_update(obligation, model, meta):
+    """native run of the real System.j_update on a stock case: the matrices built after a status / parameter change at an
+    unchanged operating point must equal those of a system in which the change was made before the first build"""
+    import logging
+    import numpy as np
+    import andes
+    from kvxopt import matrix
+    logging.getLogger('andes').setLevel(logging.CRITICAL)
+
+    def fresh_system():
+        ss = andes.load(andes.get_case('kundur/kundur_full.xlsx'), default_config=True, no_output=True)
+        ss.PFlow.run()
+        ss.TDS.init()
+        return ss
+
+    def change(ss):
+        ss.Line.alter('u', ss.Line.idx.v[4], 0)
+        ss.EXDC2.alter('KA', ss.EXDC2.idx.v[0], 2 * ss.EXDC2.KA.v[0])
+
+    def mats(ss):
+        return {n: np.array(matrix(ss.dae.__dict__[n])) for n in ('fx', 'fy', 'gx', 'gy')}
+    def reference(ss, models):
+        # the contract's sequence executed directly: model values, pattern reset, accumulation, island patch
+        ss.call_models('j_update', models)
+        ss.dae.restore_sparse()
+        for jname in ('fx', 'fy', 'gx', 'gy'):
+            for mdl in models.values():
+                for rows, cols, vals in mdl.triplets.zip_ijv(jname):
+                    ss.dae.__dict__[jname].ipadd(vals, rows, cols)
+        ss.j_islands()
+    a = fresh_system()
+    a.j_update(a.exist.pflow_tds)
+    a.j_update(a.exist.pflow_tds)
+    change(a)
+    a.j_update(a.exist.pflow_tds)
+    ma = mats(a)
+    reference(a, a.exist.pflow_tds)
+    mb = mats(a)
+    for n in ma:
+        if ma[n].shape != mb[n].shape or not np.allclose(ma[n], mb[n], rtol=1e-12, atol=1e-12):
+            d = np.abs(ma[n] - mb[n])
+            i, j = np.unravel_index(np.argmax(d), d.shape)
+            return {'confirmed': True, 'inputs': {'case': 'kundur_full', 'sequence': 'j_update, j_update, Line_4.u=0 and EXDC2.KA*2, j_update'},
+                    'observed': '%s[%d,%d] = %r but the specified sequence (model values, pattern reset, accumulation, island patch) gives %r' % (n, i, j, ma[n][i, j], mb[n][i, j]),
+                    'native_cmd': 'System.j_update(models) on kundur_full after TDS.init, compared with the contract sequence executed directly'}
+    return {'confirmed': False, 'tried': 1}
 
 
 def add_obligations(pack, ss, tier, pid='C03'):
@@ -535,5 +645,5 @@ def add_obligations(pack, ss, tier, pid='C03'):
     pack.trust('kvxopt.spmatrix(V, I, J, size) builds the matrix with V[k] accumulated at (I[k], J[k]); ipadd/ipset add/set in place',
                'hand-written j_numeric of a model or block appends to constant Jacobian names only (so position #idx of '
                'triplets.vjac[<variable name>] is the idx-th generated entry); no stock model defines j_numeric')
-    items = [(model_j_update(pid),)] + [(c,) for c in jac_eq_var_name(pid)] + [(system_store_sparse_pattern(pid),), (model_store_sparse_pattern(pid),), (system_j_update(pid),), (j_islands(pid),)] + [(c,) for c in dae_restore_sparse(pid) + dae_build_pattern(pid)]
+    items = [(model_j_update(pid),)] + [(c,) for c in jac_eq_var_name(pid)] + [(system_store_sparse_pattern(pid),), (model_store_sparse_pattern(pid),), (system_j_update(pid), None, replay_system_j_update), (j_islands(pid), None, replay_j_islands)] + [(c,) for c in dae_restore_sparse(pid) + dae_build_pattern(pid)]
     run_contracts(pack, items)
